@@ -57,7 +57,8 @@ class Ctx:
         return self.deadline is not None and time.time() > self.deadline
 
     def log(self, *a):
-        print("[%s %6.1fs]" % (self.prop, time.time() - self.t0), *a, flush=True)
+        # to the process's real stdout: a check may silence the library with redirect_stdout while another thread logs
+        print("[%s %6.1fs]" % (self.prop, time.time() - self.t0), *a, flush=True, file=sys.__stdout__)
 
 
 def _rec_hash(rec):
